@@ -745,7 +745,24 @@ func (tr *trans) ret(x *ssa.Return, st State) {
 			cenv := *env
 			blk := tr.curB
 			cenv.lookup = func(name string) (SV, bool) { return tr.varAtEnd(blk, name, st) }
-			tr.oblige("check", fmt.Sprintf("[%s]@ret%d", label, k), implies(reach, cenv.elabBool(it.E)), x.Pos())
+			var errs []string
+			cenv.errs = &errs
+			goal := cenv.elabBool(it.E)
+			if len(errs) > 0 {
+				// some local of the clause does not exist yet at this return: the clause must be vacuous here,
+				// i.e. its antecedent must be false
+				imp, ok := it.E.(*EBinary)
+				var errs2 []string
+				cenv.errs = &errs2
+				if ok && imp.Op == "==>" {
+					goal = not(cenv.elabBool(imp.X))
+				}
+				if !ok || imp.Op != "==>" || len(errs2) > 0 {
+					tr.errs = append(tr.errs, errs...)
+					goal = "false"
+				}
+			}
+			tr.oblige("check", fmt.Sprintf("[%s]@ret%d", label, k), implies(reach, goal), x.Pos())
 		}
 	}
 	tr.frameObligations(st, k, x.Pos())
